@@ -67,6 +67,10 @@ def gen_recording_cfg(rng, prop, tier, backends=None, dtypes=None, max_n=64, max
         cfg['offset'] = rng.choice([0, 0, 1, 2, 7, 16, 64])
         cfg['ext'] = rng.choice(['.dat', '.bin', '.raw'])
         cfg['naming'] = rng.choice(['indexed', 'unpadded', 'reversed'])
+    if backend in ('flat', 'npy', 'array') and dtype != 'uint8' and rng.random() < 0.12:
+        cfg['byteorder'] = '>'      # samples stored in the non-native byte order
+    if backend == 'npy' and rng.random() < 0.2:
+        cfg['npy_fortran'] = True   # saved from a column-major (channels x samples transposed) buffer
     if backend == 'cbin':
         cfg['cbin_chunk'] = rng.choice([1, 2, 3, 5, 8, max(1, n // 3), n, n + 2])
         cfg['n_threads'] = rng.randint(1, 4)
@@ -94,10 +98,13 @@ class Recording(object):
         self.cfg = cfg
         n, c = cfg['n'], cfg['c']
         self.A = make_data(n, c, cfg['dtype'], cfg['data_seed'])
+        if cfg.get('byteorder'):
+            self.A = self.A.astype(self.A.dtype.newbyteorder(cfg['byteorder']))
+            ctx.probe('non_native_byte_order')
         self.paths = []
         self._mts = None
         backend = cfg['backend']
-        dt = np.dtype(cfg['dtype'])
+        dt = self.A.dtype
         if backend == 'flat':
             i = 0
             for k, p in enumerate(cfg['parts']):
@@ -119,7 +126,11 @@ class Recording(object):
                                    dtype=dt, offset=cfg['offset'], sample_rate=cfg['sr'])
         elif backend == 'npy':
             path = root / 'rec.npy'
-            np.save(path, self.A)
+            if cfg.get('npy_fortran'):
+                np.save(path, np.asfortranarray(self.A))
+                ctx.probe('npy_fortran_order')
+            else:
+                np.save(path, self.A)
             self.paths.append(path)
             self.reader = ctx.real('open_reader', get_ephys_reader, path, sample_rate=cfg['sr'])
         elif backend == 'array':
